@@ -291,7 +291,7 @@ theorem getD_permuteMatT_row (hp : IsPerm N p) {m : List (List ℂ)} (hm : N ≤
     (permuteMatT m p).getD i.val [] = gatherT (m.getD (permOf hp i).val []) p := by
   unfold Perm.permuteMatT
   have h1 : (permOf hp i).val < m.length := lt_of_lt_of_le (permOf hp i).2 hm
-  rw [List.getD_eq_getElem?_getD, List.getElem?_map, getElem?_gatherT_fin hp hm i,
+  rw [List.getD_eq_getElem?_getD, List.getElem?_map, getElemOpt_gatherT_fin hp hm i,
     List.getD_eq_getElem?_getD, List.getElem?_eq_getElem h1]
   rfl
 
@@ -523,20 +523,20 @@ theorem mapOpt_eq_some_map {γ δ : Type} (f : γ → Option δ) (g : γ → δ)
     rw [h a (by simp), mapOpt_eq_some_map f g l (fun x hx => h x (by simp [hx]))]
     rfl
 
-theorem mapOpt_getElem? (row : List β) :
+theorem mapOpt_getElemOpt (row : List β) :
     ∀ (l : List ℕ), (∀ i ∈ l, i < row.length) → mapOpt (fun a => row[a]?) l = some (l.filterMap (fun a => row[a]?))
   | [], _ => rfl
   | a :: l, h => by
     have ha : a < row.length := h a (by simp)
     unfold mapOpt
-    rw [mapOpt_getElem? row l (fun i hi => h i (by simp [hi])), List.getElem?_eq_getElem ha,
+    rw [mapOpt_getElemOpt row l (fun i hi => h i (by simp [hi])), List.getElem?_eq_getElem ha,
       List.filterMap_cons_some (List.getElem?_eq_getElem ha)]
 
 /-- `row[perm]` of the C02 model is the gather of `Model/Perm.lean` -/
 theorem permuteRow_eq_gatherT (perm : List ℕ) (row : List β) (h : ∀ i ∈ perm, i < row.length) :
     permuteRow perm row = some (gatherT row perm) := by
   unfold permuteRow
-  rw [mapOpt_getElem? row perm h, gatherT_eq]
+  rw [mapOpt_getElemOpt row perm h, gatherT_eq]
 
 variable {p : List ℕ} {P : Problem ℂ}
 
@@ -616,5 +616,150 @@ theorem C03_ideal_installed (ph : Phys d) (P Q : Problem ℂ) (p : List ℕ) (hp
   exact C03_ideal ph P p hp
 
 end installed
+
+/-- the predicate `C02.StringRelabelled` (the conclusion of `C02.installedString_relabelled` / `C02.same_map`; `C02.Relabelled`
+has the same shape for a drive row) pins the installed list down to the gather of `Model/Perm.lean` -/
+theorem C02_relabelled_is_gather {β : Type} (perm : List ℕ) (site atom : List β)
+    (h : C02.StringRelabelled perm site atom) (hl : site.length = perm.length) :
+    site = EmuVerif.Perm.gatherT atom perm := by
+  have hin : ∀ i ∈ perm, i < atom.length := by
+    intro a ha
+    obtain ⟨i, hi, hia⟩ := List.getElem_of_mem ha
+    have := (h i a (by rw [List.getElem?_eq_getElem hi, hia])).2
+    by_contra hcon
+    rw [List.getElem?_eq_none (not_lt.mp hcon)] at this
+    simp at this
+  apply List.ext_getElem?
+  intro k
+  rw [EmuVerif.Perm.getElem?_gatherT hin]
+  by_cases hk : k < perm.length
+  · rw [List.getElem?_eq_getElem hk]
+    exact (h k perm[k] (List.getElem?_eq_getElem hk)).1
+  · rw [List.getElem?_eq_none (by rw [hl]; exact not_lt.mp hk), List.getElem?_eq_none (not_lt.mp hk)]
+    rfl
+
+/-! ### Non-vacuity: `N = 3`, the 3-cycle listed by `[2, 0, 1]`, concrete matrices -/
+section examples
+open EmuVerif.Perm EmuVerif.Props.C03
+
+theorem ex_isPerm : IsPerm 3 [2, 0, 1] := isPermOf_iff.mp (by decide)
+
+/-- the 3-cycle `0 ↦ 2, 1 ↦ 0, 2 ↦ 1` (site `k` holds atom `[2, 0, 1][k]`) -/
+noncomputable def c3 : Equiv.Perm (Fin 3) := permOf ex_isPerm
+
+theorem c3_apply : c3 0 = 2 ∧ c3 1 = 0 ∧ c3 2 = 1 := ⟨rfl, rfl, rfl⟩
+
+/-- `n̂ = |r⟩⟨r|`, `σˣ`, `σʸ` -/
+noncomputable def nop : Matrix (Fin 2) (Fin 2) ℂ := !![0, 0; 0, 1]
+noncomputable def sx : Matrix (Fin 2) (Fin 2) ℂ := !![0, 1; 1, 0]
+noncomputable def sy : Matrix (Fin 2) (Fin 2) ℂ := !![0, -Complex.I; Complex.I, 0]
+
+/-- `P_σ |r g g⟩ = |g r g⟩`: atom 0 is excited, and atom 0 sits on site 1 -/
+example : (siteP c3 : Matrix (Cfg 3 2) (Cfg 3 2) ℂ) *ᵥ Pi.single ![1, 0, 0] 1 = Pi.single ![0, 1, 0] 1 := by
+  rw [siteP_basis]
+  congr 1
+  funext k
+  fin_cases k <;> rfl
+
+/-- … so `P_σ` is not the identity -/
+example : (siteP c3 : Matrix (Cfg 3 2) (Cfg 3 2) ℂ) ≠ 1 := by
+  intro h
+  have := congrFun (congrFun h ![0, 1, 0]) ![1, 0, 0]
+  rw [siteP_apply, Matrix.one_apply, if_pos (by funext k; fin_cases k <;> rfl), if_neg (by decide)] at this
+  exact one_ne_zero this
+
+/-- `siteEmb_conj`, instantiated: `n̂` of atom `σ 0 = 2` becomes `n̂` of site 0 — two different matrices -/
+example : siteP c3 * siteEmb 3 2 2 nop * (siteP c3)ᵀ = siteEmb 3 2 0 nop := siteEmb_conj c3 0 nop
+
+example : siteEmb 3 2 2 nop ≠ siteEmb 3 2 0 nop := by
+  intro h
+  have := congrFun (congrFun h ![1, 0, 0]) ![1, 0, 0]
+  simp [siteEmb, nop] at this
+
+/-- a step with three different drives and three different couplings … -/
+noncomputable def exStep : Step 3 2 :=
+  ⟨fun m => ((m.val : ℂ) + 1) • sx,
+   fun i j => if i = j then 0 else ((i.val : ℂ) + (j.val : ℂ) + 1), 1⟩
+
+theorem exStep_symm : ∀ i j, exStep.U i j = exStep.U j i := by
+  intro i j
+  simp only [exStep, eq_comm (a := i), add_comm ((i.val : ℂ))]
+
+/-- … is genuinely changed by the relabelling (`U'₀₁ = U₂₀ = 3 ≠ 2 = U₀₁`) … -/
+example : (exStep.relabel c3).U 0 1 = 3 ∧ exStep.U 0 1 = 2 := by
+  have h1 : (exStep.relabel c3).U 0 1 = exStep.U 2 0 := rfl
+  rw [h1]
+  simp only [exStep]
+  constructor
+  · rw [if_neg (by decide)]
+    show (((2 : ℕ) : ℂ) + ((0 : ℕ) : ℂ) + 1) = 3
+    norm_num
+  · rw [if_neg (by decide)]
+    show (((0 : ℕ) : ℂ) + ((1 : ℕ) : ℂ) + 1) = 2
+    norm_num
+
+/-- … and satisfies the hypotheses of `ideal_run_relabel` & co. for the Rydberg and for the XY interaction, any durations -/
+example (t₁ t₂ : ℝ) (ψ : Cfg 3 2 → ℂ) (s : Cfg 3 2) :
+    prob (run (hamSteps (Kind.rydberg nop) ([{ exStep with t := t₁ }, { exStep with t := t₂ }].map (Step.relabel c3)))
+      (siteP c3 *ᵥ ψ)) (s ∘ c3)
+      = prob (run (hamSteps (Kind.rydberg nop) [{ exStep with t := t₁ }, { exStep with t := t₂ }]) ψ) s :=
+  bitstring_prob_relabel _ c3 _ (by
+    intro st hst; simp only [List.mem_cons, List.not_mem_nil, or_false] at hst
+    rcases hst with rfl | rfl <;> exact exStep_symm) ψ s
+
+example (t₁ : ℝ) (ψ : Cfg 3 2 → ℂ) (k : Fin 3) :
+    expect (siteEmb 3 2 k nop) (run (hamSteps (Kind.xy sx sy) ([{ exStep with t := t₁ }].map (Step.relabel c3))) (siteP c3 *ᵥ ψ))
+      = expect (siteEmb 3 2 (c3 k) nop) (run (hamSteps (Kind.xy sx sy) [{ exStep with t := t₁ }]) ψ) :=
+  occupation_relabel _ c3 _ (by
+    intro st hst; simp only [List.mem_cons, List.not_mem_nil, or_false] at hst
+    subst hst; exact exStep_symm) ψ nop k
+
+/-- a concrete problem: 3 atoms, distinct couplings, two drive rows, atom 2 dark, initial state `|r g g⟩` -/
+noncomputable def exP : Problem ℂ :=
+  { qubitIds := ["q0", "q1", "q2"]
+    interaction := [[0, 2, 3], [2, 0, 4], [3, 4, 0]]
+    drives := [[1, 2, 3], [4, 5, 6]]
+    badAtoms := [false, false, true]
+    initial := [("rgg".toList, 1)] }
+
+noncomputable def exPh : Phys 2 :=
+  { kind := Kind.rydberg nop, loc := fun z => z • sx, obs := nop, lvl := fun c => if c = 'r' then 1 else 0, gnd := 0, dt := 1 }
+
+theorem exP_WF : WF 3 exP := by
+  refine ⟨?_, by simp [exP], ?_, by simp [exP], ?_⟩
+  · intro row hrow
+    simp only [exP, List.mem_cons, List.not_mem_nil, or_false] at hrow
+    rcases hrow with rfl | rfl <;> simp
+  · intro kv hkv
+    simp only [exP, List.mem_cons, List.not_mem_nil, or_false] at hkv
+    subst hkv; decide
+  · intro i
+    fin_cases i <;> simp [exP]
+
+/-- the hypotheses of `C03_ideal` / `idealRun_equivariant` / `C03_ideal_installed` hold for it with the 3-cycle … -/
+example : IsPerm exP.qubitIds.length [2, 0, 1] := ex_isPerm
+example : permuteResults [2, 0, 1] (idealRun exPh (exP.reorder [2, 0, 1])) true = some (idealRun exPh exP) :=
+  C03_ideal exPh exP [2, 0, 1] ex_isPerm
+
+/-- … the run is the real one (not the answer to a malformed problem), with one entry per step … -/
+theorem ex_run : idealRun exPh exP = core exPh 3 exP := if_pos exP_WF
+
+example : (idealRun exPh exP).occupation.map List.length = some 2 := by
+  rw [ex_run]
+  simp [core, trajF, traj_length, hamSteps, schedF, exP]
+
+/-- … and the reordered problem is a different problem, listed in site order -/
+example : (exP.reorder [2, 0, 1]).qubitIds = ["q2", "q0", "q1"] ∧
+    (exP.reorder [2, 0, 1]).badAtoms = [true, false, false] := by
+  constructor <;> decide
+
+example : (exP.reorder [2, 0, 1]).interaction = [[0, 3, 4], [3, 0, 2], [4, 2, 0]] := by
+  simp [Problem.reorder, exP, Perm.permuteMatT, gatherT]
+
+/-- the constructor model of C02 on the same data: hypotheses of `installed_is_reorder`, evaluated -/
+example : EmuVerif.Stepper.installedDrive .repaired [2, 0, 1] exP.drives 1 = (exP.reorder [2, 0, 1]).drives[1]? :=
+  (installed_is_reorder ex_isPerm exP_WF).2.1 1
+
+end examples
 
 end EmuVerif.Props.C03Ideal
